@@ -38,6 +38,7 @@ type c58Monitor struct {
 	recloseNil bool
 	// closeErr makes the wrapped listener's Close return an error (it still closes).
 	closeErr  bool
+	laggy     bool // the wrapped listener hands out conns after Close (c58Listener.lag)
 	taken     atomic.Int64 // handed out by the fake listener, Close not yet called
 	returned  atomic.Int64 // returned by LimitListener.Accept to the caller, Close not yet called
 	handed    atomic.Int64 // total handed out
@@ -107,6 +108,45 @@ type c58Listener struct {
 	conns  chan *c58Conn
 	closed chan struct{}
 	once   sync.Once
+	// laggy listener (cf. golang.org/issue/50216): an Accept that starts after Close
+	// still hands out up to lag conns that were already queued before it starts
+	// returning errors. post lists the conns handed out that way.
+	lagMu sync.Mutex
+	lag   int
+	post  []*c58Conn
+}
+
+func (l *c58Listener) isClosed() bool {
+	select {
+	case <-l.closed:
+		return true
+	default:
+		return false
+	}
+}
+
+// afterClose is Accept on the closed listener: never blocks.
+func (l *c58Listener) afterClose() (net.Conn, error) {
+	l.lagMu.Lock()
+	defer l.lagMu.Unlock()
+	if l.lag > 0 {
+		select {
+		case c := <-l.conns:
+			l.lag--
+			l.post = append(l.post, c)
+			l.mon.handed.Add(1)
+			l.mon.taken.Add(1)
+			return c, nil
+		default:
+		}
+	}
+	return nil, net.ErrClosed
+}
+
+func (l *c58Listener) postConns() []*c58Conn {
+	l.lagMu.Lock()
+	defer l.lagMu.Unlock()
+	return append([]*c58Conn(nil), l.post...)
 }
 
 func c58NewListener(mon *c58Monitor, capacity int) *c58Listener {
@@ -116,7 +156,7 @@ func c58NewListener(mon *c58Monitor, capacity int) *c58Listener {
 func (l *c58Listener) Accept() (net.Conn, error) {
 	select {
 	case <-l.closed:
-		return nil, net.ErrClosed
+		return l.afterClose()
 	default:
 	}
 	select {
@@ -129,7 +169,11 @@ func (l *c58Listener) Accept() (net.Conn, error) {
 				break
 			}
 		}
-		if v > l.mon.limit {
+		// With a laggy listener the taken-count legitimately overshoots for a moment
+		// after Close (spurious conns are taken and closed at once); there only the
+		// count of conns returned by Accept is judged. The closed test comes after the
+		// increment: if the listener is not closed yet, no spurious conn is in v.
+		if v > l.mon.limit && !(l.mon.laggy && l.isClosed()) {
 			l.mon.fail("limit %d exceeded: %d connections have been taken from the wrapped listener and not been closed", l.mon.limit, v)
 		}
 		return c, nil
@@ -276,6 +320,9 @@ type c58Case struct {
 	RecloseNil bool `json:"reclose_nil"`
 	// CloseErr: the wrapped listener's Close returns an error although it closes.
 	CloseErr bool `json:"close_err"`
+	// Lag: the wrapped listener hands out up to Lag (1-3) more queued conns to
+	// Accepts that start after its Close before it returns errors (0: well behaved).
+	Lag int `json:"lag,omitempty"`
 }
 
 func c58Gen(t *rapid.T) c58Case {
@@ -307,6 +354,7 @@ func c58Gen(t *rapid.T) c58Case {
 		Sched:      rapid.SliceOfN(batch, 1, 40).Draw(t, "sched"),
 		RecloseNil: rapid.Bool().Draw(t, "recloseNil"),
 		CloseErr:   rapid.IntRange(0, 3).Draw(t, "closeErr") == 0,
+		Lag:        rapid.SampledFrom([]int{0, 0, 1, 2, 3}).Draw(t, "lag"),
 	}
 }
 
@@ -330,7 +378,7 @@ type c58Worker struct {
 }
 
 func c58Prop(c c58Case, r *vp.Rec) error {
-	if c.N < 1 || c.N > 64 || c.Workers < 1 || c.Workers > 16 || c.Prefill < 0 || c.Prefill > 64 {
+	if c.N < 1 || c.N > 64 || c.Workers < 1 || c.Workers > 16 || c.Prefill < 0 || c.Prefill > 64 || c.Lag < 0 || c.Lag > 64 {
 		r.Discard("malformed case")
 		return nil
 	}
@@ -339,12 +387,13 @@ func c58Prop(c c58Case, r *vp.Rec) error {
 
 func c58Run(c c58Case, r *vp.Rec) error {
 	n := c.Workers
-	mon := &c58Monitor{limit: int64(c.N), recloseNil: c.RecloseNil, closeErr: c.CloseErr}
+	mon := &c58Monitor{limit: int64(c.N), recloseNil: c.RecloseNil, closeErr: c.CloseErr, laggy: c.Lag > 0}
 	feeds := c.Prefill
 	for _, b := range c.Sched {
 		feeds += len(b)
 	}
 	inner := c58NewListener(mon, feeds+1)
+	inner.lag = c.Lag
 	ll := LimitListener(inner, c.N)
 	pool := c58NewPool(n + 1) // worker n is the janitor
 	ws := make([]c58Worker, n+1)
@@ -360,6 +409,8 @@ func c58Run(c c58Case, r *vp.Rec) error {
 	step := func(si string, acts []c58Act, janitor bool) error {
 		closedAtStart := lclosed
 		ccloseInStep := false
+		returnedAtStart := mon.returned.Load() // = slots in use, once Close has returned
+		postAtStart := len(inner.postConns())
 		for _, a := range acts {
 			if a.Op == "feed" {
 				if !lclosed {
@@ -430,8 +481,16 @@ func c58Run(c c58Case, r *vp.Rec) error {
 			ar := res.out.(c58AcceptRes)
 			switch {
 			case ar.c != nil && ar.err == nil:
-				if wk.afterClose {
+				switch {
+				case wk.afterClose && c.Lag == 0:
 					return fmt.Errorf("%s: worker %d: Accept called after Close returned a connection instead of an error", si, res.w)
+				case wk.afterClose && returnedAtStart >= int64(c.N) && !ccloseInStep:
+					// laggy listener: with a free slot the unchanged code may hand a
+					// lagging conn on (within the limit); with every slot taken it
+					// must close such conns and return the error.
+					return fmt.Errorf("%s: worker %d: Accept called after Close, with all %d slots taken, returned a connection instead of an error", si, res.w, c.N)
+				case wk.afterClose:
+					r.Class("lag:conn-after-close-within-limit")
 				}
 				accepted = append(accepted, ar.c)
 				if wk.blockedOnLim && ccloseInStep {
@@ -452,6 +511,22 @@ func c58Run(c c58Case, r *vp.Rec) error {
 		}
 		if err := mon.failure(); err != nil {
 			return fmt.Errorf("%s: %w", si, err)
+		}
+		// laggy listener: what it handed out after Close and LimitListener did not
+		// return must have been closed by LimitListener (every Accept that could
+		// still do so has returned by now: none may be blocked after Close).
+		if post := inner.postConns(); len(post) > 0 {
+			for _, pc := range post {
+				if !pc.counted.Load() && pc.closes.Load() == 0 {
+					return fmt.Errorf("%s: conn %d, handed out by the wrapped listener after Close, was neither returned by Accept nor closed (leaked)", si, pc.id)
+				}
+			}
+			if len(post) > postAtStart {
+				r.Class("lag:conns-handed-out-after-close")
+				if returnedAtStart >= int64(c.N) {
+					r.Class("lag:after-close-with-all-slots-taken")
+				}
+			}
 		}
 		open := mon.taken.Load()
 		if open > hw {
@@ -500,6 +575,10 @@ func c58Run(c c58Case, r *vp.Rec) error {
 	// Release everything: close the listener (every pending Accept must return), then
 	// every conn that is still open.
 	if err := step("release (listener close)", []c58Act{{Op: "lclose"}}, true); err != nil {
+		return fail(err)
+	}
+	// ... and one more Accept after Close: an error, without blocking.
+	if err := step("release (accept after close)", []c58Act{{Op: "accept"}}, true); err != nil {
 		return fail(err)
 	}
 	for j, conn := range accepted {
